@@ -39,6 +39,18 @@ RL(l) == [l |-> l]
 RE(e) == [e |-> e]
 Pick(l, idxs) == [k \in 1..Len(idxs) |-> At(l, idxs[k])]
 
+(* what an Eq observation compares the list with: 1 the same items, 0 one item more, 2 a proper prefix
+   (all but the last item), 3 the empty list, 4 the same length with a different last item;
+   5 / 6: as 1 / 2 but the partner is itself a lazy list *)
+EqPartner(src, a) ==
+    LET n == Len(src)
+    IN CASE a \in {1, 5} -> src
+         [] a = 0 -> Append(src, 9)
+         [] a \in {2, 6} -> IF n = 0 THEN <<>> ELSE SubSeq(src, 1, n - 1)
+         [] a = 3 -> <<>>
+         [] OTHER -> IF n = 0 THEN <<9>> ELSE [src EXCEPT ![n] = 9]
+
+
 (* the abstract state is the cursor of the one suspended iterator (-1: none) *)
 AbsItStart(ait) == IF ait = -1 THEN 0 ELSE ait
 AbsItAfter(src, ait, o) ==
@@ -61,7 +73,7 @@ AbsAnswer(src, ait, o) ==
          [] o.op \in {"Iter", "Copy", "Listify"} -> RL(src)
          [] o.op = "Bool" -> RI(B(n > 0))
          [] o.op = "Contains" -> RI(B(\E i \in 1..n : src[i] = o.a))
-         [] o.op = "Eq" -> RI(B(src = (IF o.a = 1 THEN src ELSE Append(src, 9))))
+         [] o.op = "Eq" -> RI(B(src = EqPartner(src, o.a)))
          [] o.op = "Count" -> RI(CountIn(src, o.a))
          [] o.op = "Reversed" -> RL(Rev(src))
          [] o.op = "HasInd" -> RI(B(o.a < n))
@@ -165,7 +177,7 @@ ImplDo(src, s, o) ==
       [] o.op = "Contains" -> LET c == Scan(src, s, 0, o.a) IN <<RI(c[1]), c[2]>>
       [] o.op = "Eq" ->
            LET s1 == PullAll(src, s)
-           IN <<RI(B(s1.gen = (IF o.a = 1 THEN src ELSE Append(src, 9)))), s1>>
+           IN <<RI(B(s1.gen = EqPartner(src, o.a))), s1>>
       [] o.op = "Count" -> LET s1 == PullAll(src, s) IN <<RI(CountIn(s1.gen, o.a)), s1>>
       [] o.op = "Reversed" -> LET s1 == PullAll(src, s) IN <<RL(Rev(s1.gen)), s1>>
       [] o.op = "HasInd" -> LET h == HasInd(src, s, o.a) IN <<RI(B(h[1])), h[2]>>
